@@ -83,7 +83,19 @@ func implURLP(f []string) string {
 
 var urlChars = []string{" ", "%", "/", "?", "#", "&", "=", "+", "@", ":", ";", ",", "é", "日本", "%41", "%zz", "%", "..", ".", "\x00", "\n", "\x7f", "\xff", "\xc3", "a", "Z", "0", "-", "_", "~", "!", "*", "'", "(", ")", "$", "\"", "<", ">", "{", "|", "\\", "^", "`"}
 
+// text that is already a canonical percent-encoding (what a caller holds after copying a label out of another URL):
+// it must come back exactly as given, never decoded once more
+var escLookalikes = []string{"%25", "%20", "%23", "%3F", "%2F", "%3B", "%2C", "%C3%A9", "%E6%97%A5", "%00", "%7F", "%22", "%3C", "%5C",
+	"alice", "Example", "100", "x", "-", "_", ".", "~", "@", "&", "=", "+", "$"}
+
 func urlText(r *rng, noColon bool) string {
+	if r.intn(5) == 0 {
+		var b strings.Builder
+		for i, n := 0, 1+r.intn(5); i < n; i++ {
+			b.WriteString(pick(r, escLookalikes))
+		}
+		return b.String()
+	}
 	n := 1 + r.intn(6)
 	if r.intn(8) == 0 {
 		n = 20 + r.intn(44)
